@@ -64,7 +64,7 @@ func biasFor(prop string) map[string]int {
 		b["CloseDeployment"] = 8
 	case "C06":
 		b["dseq.prefix-family"] = 70
-		b["clb.lost"] = 15
+		b["clb.lost"] = 30
 		b["cl.withdrawn"] = 10
 		b["busy"] = 50
 		b["CreateLease"] = 16
